@@ -93,3 +93,24 @@ package service
 //@ func (*service.Cache).addEntry(c, sname, a)
 //@   inline
 //@   requires held(c.mux) == 2
+
+//@ func (*service.Cache).AddEntry(c, sname, a)
+//@   acquires c.mux
+//@   modifies entries(c.entries)
+//@   trusted_frame the inner per-client maps are reached through map values; nothing outside the cache is written
+//@   ensures rc_has(c, strjoin(a.CName.NameString, "/"), rc_key(auth_ctime(a), sname))
+//@   ensures forall ck string, k service.replayKey :: atlock(rc_has(c, ck, k)) ==> rc_has(c, ck, k)
+//@   ensures forall ck string, k service.replayKey :: rc_has(c, ck, k) && !atlock(rc_has(c, ck, k)) ==> ck == strjoin(a.CName.NameString, "/") && k == rc_key(auth_ctime(a), sname)
+
+// Clean-up never records anything: every presentation recorded afterwards was recorded when the lock was taken.
+//@ func (*service.Cache).ClearOldEntries(c, d)
+//@   acquires c.mux
+//@   modifies entries(c.entries)
+//@   trusted_frame the inner per-client maps are reached through map values; nothing outside the cache is written
+//@   ensures forall ck string, k service.replayKey :: rc_has(c, ck, k) ==> atlock(rc_has(c, ck, k))
+//@   loop 1 invariant forall ck string, k service.replayKey :: rc_has(c, ck, k) ==> atlock(rc_has(c, ck, k))
+//@   loop 2 invariant forall ck string, k service.replayKey :: rc_has(c, ck, k) ==> atlock(rc_has(c, ck, k))
+//@   loop 1 invariant forall ck string :: present(c.entries, ck) ==> c.entries[ck].replayMap != nil
+//@   loop 1 invariant forall c1 string, c2 string :: present(c.entries, c1) && present(c.entries, c2) && c1 != c2 ==> c.entries[c1].replayMap != c.entries[c2].replayMap
+//@   loop 2 invariant forall ck string :: present(c.entries, ck) ==> c.entries[ck].replayMap != nil
+//@   loop 2 invariant forall c1 string, c2 string :: present(c.entries, c1) && present(c.entries, c2) && c1 != c2 ==> c.entries[c1].replayMap != c.entries[c2].replayMap
